@@ -37,41 +37,46 @@ def _inner_fence(body, open_len):
     return False
 
 
+def _detect_core(body, fi, ti, indent, close_indent):
+    from octave_mcp.core import lexer as lx
+
+    fence = FENCES[fi]
+    before = "A::Å\nK::\n"
+    zone = " " * indent + fence + TAGS[ti] + "\n" + body + "\n" + " " * close_indent + fence
+    after = "\nZ::Å\n"
+    text = before + zone + after
+    if _inner_fence(body, len(fence)):
+        return SKIP  # a backtick run >= the fence inside the body is not 'content shorter than the fence'
+    try:
+        out, spans = lx._normalize_with_fence_detection(text)
+    except lx.LexerError:
+        return VIOL  # well-formed zone must be accepted
+    if len(spans) != 1:
+        return VIOL
+    start, end, marker, tag = spans[0]
+    nb = before.replace("Å", "Å")
+    if start != len(nb) or end != start + len(zone):
+        return VIOL
+    if out[start:end] != zone:
+        return VIOL  # zone bytes (body incl. U+212B, tabs, backslashes) must be untouched
+    if out[:start] != nb or out[end:] != after.replace("Å", "Å"):
+        return VIOL  # text outside the fences is still normalised
+    if marker != fence:
+        return VIOL
+    want_tag = TAGS[ti].strip() or None
+    if tag != want_tag:
+        return VIOL
+    return HELD
+
+
+
 def _mk_detect(nbody, variant="(ti <= 1 and indent == close_indent and indent != 1)"):
     def F_detect(body: str, fi: int, ti: int, indent: int, close_indent: int) -> int:
         """
         pre: len(body) <= N and 0 <= fi <= 2 and 0 <= ti <= 2 and 0 <= indent <= 2 and 0 <= close_indent <= 2 and VARIANT
         post: _ != 0
         """
-        from octave_mcp.core import lexer as lx
-
-        fence = FENCES[fi]
-        before = "A::Å\nK::\n"
-        zone = " " * indent + fence + TAGS[ti] + "\n" + body + "\n" + " " * close_indent + fence
-        after = "\nZ::Å\n"
-        text = before + zone + after
-        if _inner_fence(body, len(fence)):
-            return SKIP  # a backtick run >= the fence inside the body is not 'content shorter than the fence'
-        try:
-            out, spans = lx._normalize_with_fence_detection(text)
-        except lx.LexerError:
-            return VIOL  # well-formed zone must be accepted
-        if len(spans) != 1:
-            return VIOL
-        start, end, marker, tag = spans[0]
-        nb = before.replace("Å", "Å")
-        if start != len(nb) or end != start + len(zone):
-            return VIOL
-        if out[start:end] != zone:
-            return VIOL  # zone bytes (body incl. U+212B, tabs, backslashes) must be untouched
-        if out[:start] != nb or out[end:] != after.replace("Å", "Å"):
-            return VIOL  # text outside the fences is still normalised
-        if marker != fence:
-            return VIOL
-        want_tag = TAGS[ti].strip() or None
-        if tag != want_tag:
-            return VIOL
-        return HELD
+        return _detect_core(body, fi, ti, indent, close_indent)
 
     F_detect.__doc__ = F_detect.__doc__.replace("VARIANT", variant).replace("<= N", "<= " + str(nbody))
     return F_detect
@@ -360,6 +365,60 @@ def V_untouched(content: str, tag: str, fi: int, route: int, fix: bool) -> int:
     return HELD if (z.content == content and z.info_tag == (tag or None) and z.fence_marker == FENCES[fi]) else VIOL
 
 
+def _mk_shorter_fence_line(ntail):
+
+    def F_shorter(tail: str, head: str, fi: int, m: int, pad: int, ti: int) -> int:
+        """
+        pre: len(tail) <= N and len(head) == 0 and 1 <= fi <= 2 and 3 <= m <= 4 and 0 <= pad <= 1 and ti == 0
+        post: _ != 0
+        """
+        # the quantifier's "backtick runs shorter than the fence": a content line that itself looks like a (shorter)
+        # fence line - optional padding, m backticks, then symbolic text (its would-be info string) - is content
+        from crosshair.core import realize
+
+        fi, m, pad, ti = realize(fi), realize(m), realize(pad), realize(ti)
+        if m >= len(FENCES[fi]):
+            return SKIP
+        body = (head + "\n" if head != "" else "") + " " * pad + "`" * m + tail
+        return _detect_core(body, fi, ti, 0, 0)
+
+    F_shorter.__doc__ = F_shorter.__doc__.replace("<= N", "<= " + str(ntail))
+    return F_shorter
+
+
+def _mk_prepass(n1):
+    def W_prepass(i1: int, i2: int, fi: int, tagged: bool, pad: int) -> int:
+        """
+        pre: 0 <= i1 <= 13 and 0 <= i2 <= 3 and 0 <= fi <= 2 and 0 <= pad <= 2
+        post: _ != 0
+        """
+        # octave_write's pre-lexing pass (NAME{q} -> NAME<q>) must leave zone bytes alone whatever else the zone holds
+        # (quotes, comment markers, shorter backtick runs on the lines before the NAME{q} text), and still repair outside
+        from crosshair.core import realize
+        from octave_mcp.mcp.write import WriteTool
+
+        from crosshair.tracers import NoTracing
+
+        fi, tagged, pad, i1, i2 = realize(fi), realize(tagged), realize(pad), realize(i1), realize(i2)
+        fence = FENCES[fi]
+        l1 = ["", '""', "//", '"a"', "// c", "```", "````", '"', "`", "x", "{", "A{b}", 'k::"v" // c', "\t"][i1]
+        l2 = ["", "x", "}", " // c"][i2]
+        body = l1 + "\n" + " " * pad + "A{b}" + l2
+        if _inner_fence(body, len(fence)) or "\r" in body:
+            return SKIP
+        zone = fence + ("js" if tagged else "") + "\n" + body + "\n" + fence
+        text = "===D===\nK::\n" + zone + "\nX::C{d}\n===END===\n"
+        with NoTracing():
+            out, corr = WriteTool()._repair_curly_brace_annotations(text)
+        want = "===D===\nK::\n" + zone + "\nX::C<d>\n===END===\n"
+        if out != want:
+            return VIOL
+        return HELD if len(corr) == 1 and corr[0].get("before") == "C{d}" else VIOL
+
+    W_prepass.__doc__ = W_prepass.__doc__.replace("<= N", "<= " + str(n1))
+    return W_prepass
+
+
 def _fix_fi(fn, fi):
     fn.__doc__ = fn.__doc__.replace("0 <= fi <= 2", f"fi == {fi}")
     return fn
@@ -403,6 +462,8 @@ def obligations(tier):
         xh_ob(PROP, f"F.fence-detector-preserves-zone-bytes[fence={len(FENCES[fi])}]", _fix_fi(_mk_detect(3 if th else 2), fi), timeout=3000 if th else 1200, setup=_setup, stubs=st, bound=f"body <= {3 if th else 2} chars of ANY character (tab, newline, backtick, backslash, quote, U+212B ...), fence length {len(FENCES[fi])}, tags none/py, indent 0 or 2 (equal on both fences); NFC-sensitive text before and after the zone", functions=lf)
         for fi in range(3)
     ] + [
+        xh_ob(PROP, "F.fence-detector-preserves-zone-bytes[content-line-shaped-like-a-shorter-fence]", _mk_shorter_fence_line(2 if th else 1), timeout=3000 if th else 1200, setup=_setup, stubs=st, bound=f"fence length 4-5; a content line made of 0-1 spaces, 3..(fence-1) backticks and symbolic text <= {2 if th else 1} chars of any character (incl. U+212B, tab); tags none/py", functions=lf),
+        xh_ob(PROP, "W.curly-brace-pre-pass-keeps-zone-bytes", _mk_prepass(0), timeout=3000 if th else 1200, bound=f"zone (fence 3-5, with/without tag) whose body is a first line from a 14-text pool (empty, quoted strings, comment markers, backtick runs shorter/equal 3-4, lone quote, brace, another NAME{{q}}, field with string and comment, tab) followed by a line '<0-2 spaces>A{{b}}' + one of 4 tails (solver-indexed: one concrete run of the real pre-pass per choice); a NAME{{q}} outside the zone must still be repaired", functions=["mcp.write.WriteTool._repair_curly_brace_annotations", "lexer.FENCE_PATTERN"]),
         xh_ob(PROP, "F.fence-detector-preserves-zone-bytes[odd-layouts]", _odd_layouts(), timeout=3000 if th else 900, setup=_setup, stubs=st, bound="body <= 1 char; fence ```; four layouts: padded info tag ' x ', odd indent 1/1, opening indent 2 closing 0, opening 0 closing 2", functions=lf),
         xh_ob(PROP, "F.fence-detector-preserves-zone-bytes[body<=4,plain]", _fix_plain(_mk_detect(4)), timeout=3000 if th else 900, setup=_setup, stubs=st, bound="body <= 4 chars of any character, fence ```, no tag, no indent", functions=lf),
         xh_ob(PROP, "S.fence-span-branch-of-tokenize", _mk_span_branch(2 if th else 1), timeout=3000 if th else 900, setup=_setup_slices, stubs=st, bound=f"body <= {2 if th else 1} char(s) any character, fence 3-5, with/without tag, indent 0 or 2", functions=lf + ["lexer.tokenize[fence-span branch, AST slice]"]),
